@@ -31,6 +31,11 @@ P = dict(
                 shards={"quick": 2, "thorough": 4}) for r in (0, 1, 2, 3)]
         + [Unit(f"C14_cmp_{r}", "harness/C14_cmp.cpp", defs=[f"-DC14_ROWS={r}"], flavours=_FL,
                 shards={"quick": 2, "thorough": 4}) for r in (0, 1, 2, 3)]
+        # thorough only, -O2 without sanitizers: every pair of 16-bit values
+        + [Unit("C14_arith_bulk", "harness/C14_arith.cpp", defs=["-DC14_PART=3"], flavours={"quick": [], "thorough": ["plain-cc"]},
+                shards={"quick": 1, "thorough": 16}),
+           Unit("C14_cmp_bulk", "harness/C14_cmp.cpp", defs=["-DC14_ROWS=9"], flavours={"quick": [], "thorough": ["plain-cc"]},
+                shards={"quick": 1, "thorough": 16})]
     ),
     floor={"quick": 10000000, "thorough": 100000000},
     assumptions=["libstdc++ 12 <bit>, <numeric> (gcd/lcm/midpoint) and <utility> (cmp_*/in_range) are correct references",
